@@ -71,6 +71,73 @@ fn main() {
             cases::write_lines(&out, &lines);
             println!("cases {}", lines.len());
         }
+        Some("trace-lifecycle") => {
+            let inputs = cases::resolve_inputs(&get("inputs", "gen:100"), seed);
+            let shards: usize = get("shards", "1").parse().unwrap();
+            let scripts: Vec<(&str, Vec<&str>)> = vec![
+                ("A", vec!["parse", "emit", "emit", "reparse", "emit"]),
+                ("B", vec!["parse", "gc", "emit", "emit"]),
+                ("C", vec!["parse", "emit", "gc", "emit", "reparse", "emit", "emit"]),
+            ];
+            // digests of the same inputs computed by other processes: id -> [digest, ...]
+            let mut procs: std::collections::HashMap<String, Vec<String>> = Default::default();
+            for f in get("procs", "").split(',').filter(|x| !x.is_empty()) {
+                for l in std::fs::read_to_string(f).unwrap().lines() {
+                    let v: serde_json::Value = serde_json::from_str(l).unwrap();
+                    procs.entry(v["id"].as_str().unwrap().to_string()).or_default().push(v["digest"].as_str().unwrap().to_string());
+                }
+            }
+            let lines: Vec<_> = inputs
+                .par_iter()
+                .enumerate()
+                .flat_map(|(n, i)| {
+                    let mut v = vec![];
+                    for (k, (tag, sc)) in scripts.iter().enumerate() {
+                        // default switches for every input; one other switch vector per input and script
+                        let mut cfgs = vec![wv::run::Cfg { probe: false, ..Default::default() }];
+                        let x = (n * 7 + k * 3 + seed as usize) % 4;
+                        cfgs.push(wv::run::Cfg { probe: false, names: x & 1 == 0, producers: x & 2 == 0, ..Default::default() });
+                        for (ci, c) in cfgs.iter().enumerate() {
+                            let mut h = cases::lifecycle_case(i, c, sc, &format!("{}{}", tag, ci));
+                            h["procs"] = serde_json::json!(if ci == 0 { procs.get(&i.id).cloned().unwrap_or_default() } else { vec![] });
+                            v.push(h);
+                        }
+                    }
+                    v
+                })
+                .collect();
+            let per = (lines.len() + shards - 1) / shards.max(1);
+            for (s, chunk) in lines.chunks(per.max(1)).enumerate() {
+                cases::write_lines(&format!("{}.{}", out, s), chunk);
+            }
+            println!("histories {}", lines.len());
+        }
+        Some("trace-config") => {
+            let inputs = cases::resolve_inputs(&get("inputs", "gen:100"), seed);
+            let lines: Vec<_> = inputs
+                .par_iter()
+                .map(|i| {
+                    // DWARF generation is only switched on for inputs without debug sections or with well-formed synthesized ones
+                    let has_debug = wv::absmod::project(&i.bytes).map(|m| m.sections.iter().any(|s| s.name.starts_with(".debug"))).unwrap_or(false);
+                    cases::config_case(i, !has_debug || i.source.starts_with("dwarf:"))
+                })
+                .collect();
+            cases::write_lines(&out, &lines);
+            println!("cases {}", lines.len());
+        }
+        Some("digests") => {
+            // one line per input: id and digest of  parse ; emit  with the default switches (separate process per call)
+            let inputs = cases::resolve_inputs(&get("inputs", "gen:100"), seed);
+            let cfg = wv::run::Cfg { probe: false, ..Default::default() };
+            let lines: Vec<_> = inputs
+                .par_iter()
+                .map(|i| {
+                    let rt = wv::run::roundtrip(&i.bytes, &cfg, 0);
+                    serde_json::json!({"id": i.id, "digest": if rt.outcome == "ok" { wv::absmod::fnv(&rt.out) } else { rt.outcome.clone() }})
+                })
+                .collect();
+            cases::write_lines(&out, &lines);
+        }
         Some("input") => {
             // print the bytes of one input (hex) given its source string
             let src = get("source", "");
